@@ -1149,11 +1149,17 @@ func FreeRoots(n *lib.Node) []string {
 }
 
 // Minimize descends into sub-expressions for which the predicate still holds and returns the smallest
-// failing subtree found on that path (the whole tree when no sub-expression fails on its own).
-func Minimize(n *lib.Node, fails func(*lib.Node) bool) *lib.Node {
+// failing subtree found on that path (the whole tree when no sub-expression fails on its own). Below a
+// binder (for expression, template for directive) the body is tried with the bound names replaced by
+// literals of the first elements of the collection, as evaluated in the given scope.
+func Minimize(n *lib.Node, fails func(*lib.Node) bool, scope ...Scope) *lib.Node {
 	for steps := 0; steps < 40; steps++ {
 		var next *lib.Node
-		for _, c := range SubExprs(n) {
+		cands := SubExprs(n)
+		if len(scope) > 0 {
+			cands = append(cands, instantiatedBodies(n, scope[0])...)
+		}
+		for _, c := range cands {
 			if c.K == "ident" || c.K == "tlit" {
 				continue
 			}
@@ -1168,4 +1174,129 @@ func Minimize(n *lib.Node, fails func(*lib.Node) bool) *lib.Node {
 		n = next
 	}
 	return n
+}
+
+// ValueNode writes a value as a literal expression (ok=false for sets, marked, unknown values).
+func ValueNode(v cty.Value) (*lib.Node, bool) {
+	if v.IsMarked() || !v.IsKnown() {
+		return nil, false
+	}
+	if v.IsNull() {
+		return &lib.Node{K: "null", S: "null"}, true
+	}
+	ty := v.Type()
+	switch {
+	case ty == cty.Number:
+		if v.RawEquals(cty.PositiveInfinity) || v.RawEquals(cty.NegativeInfinity) {
+			return nil, false
+		}
+		return NumLit(v), true
+	case ty == cty.String:
+		return Str(v.AsString()), true
+	case ty == cty.Bool:
+		if v.True() {
+			return &lib.Node{K: "bool", S: "true"}, true
+		}
+		return &lib.Node{K: "bool", S: "false"}, true
+	case ty.IsListType() || ty.IsTupleType():
+		n := &lib.Node{K: "tuple"}
+		for it := v.ElementIterator(); it.Next(); {
+			_, ev := it.Element()
+			k, ok := ValueNode(ev)
+			if !ok {
+				return nil, false
+			}
+			n.Kids = append(n.Kids, k)
+		}
+		return n, true
+	case ty.IsMapType() || ty.IsObjectType():
+		n := &lib.Node{K: "object"}
+		for it := v.ElementIterator(); it.Next(); {
+			kv, ev := it.Element()
+			k, ok := ValueNode(ev)
+			if !ok {
+				return nil, false
+			}
+			n.Kids = append(n.Kids, Str(kv.AsString()), k)
+		}
+		return n, true
+	}
+	return nil, false
+}
+
+// substitute copies a tree replacing free occurrences of the names by the given nodes.
+func substitute(n *lib.Node, repl map[string]*lib.Node) *lib.Node {
+	if n.K == "var" {
+		if r, ok := repl[n.S]; ok {
+			return &lib.Node{K: "paren", Kids: []*lib.Node{r}}
+		}
+		return n
+	}
+	c := *n
+	c.Kids = make([]*lib.Node, len(n.Kids))
+	for i, k := range n.Kids {
+		inner := repl
+		if (n.K == "fortuple" || n.K == "forobj" || n.K == "tfor") && i > 0 {
+			// names re-bound by an inner binder are no longer ours
+			if _, a := repl[n.S]; a || repl[n.S2] != nil {
+				inner = map[string]*lib.Node{}
+				for name, r := range repl {
+					if name != n.S && name != n.S2 {
+						inner[name] = r
+					}
+				}
+			}
+		}
+		c.Kids[i] = substitute(k, inner)
+	}
+	return &c
+}
+
+// instantiatedBodies returns, for a binder node, its scoped children with the bound names replaced by
+// the first two elements of the collection (as index expressions, or as literals for sets).
+func instantiatedBodies(n *lib.Node, s Scope) []*lib.Node {
+	var binders []*lib.Node
+	switch n.K {
+	case "fortuple", "forobj":
+		binders = []*lib.Node{n}
+	case "tmpl":
+		for _, p := range n.Kids {
+			if p.K == "tfor" {
+				binders = append(binders, p)
+			}
+		}
+	}
+	var out []*lib.Node
+	for _, b := range binders {
+		coll, _ := EvalNode(b.Kids[0], s)
+		if coll == cty.NilVal {
+			continue
+		}
+		coll, _ = coll.Unmark()
+		if !coll.IsKnown() || coll.IsNull() || !coll.CanIterateElements() {
+			continue
+		}
+		i := 0
+		for it := coll.ElementIterator(); it.Next() && i < 2; i++ {
+			k, v := it.Element()
+			repl := map[string]*lib.Node{}
+			kn, kok := ValueNode(k)
+			if kok && !coll.Type().IsSetType() {
+				// the element as an index expression: marks and unknown parts keep flowing from the scope
+				repl[b.S] = Index(&lib.Node{K: "paren", Kids: []*lib.Node{b.Kids[0]}}, kn)
+			} else if vn, ok := ValueNode(v); ok {
+				repl[b.S] = vn
+			}
+			if b.S2 != "" && kok {
+				repl[b.S2] = kn
+			}
+			if len(repl) == 0 {
+				continue
+			}
+			for _, body := range b.Kids[1:] {
+				out = append(out, substitute(body, repl))
+			}
+		}
+	}
+	return out
 }
